@@ -48,6 +48,11 @@ func (e *Expect) slash(w *World, pre *Snapshot, reqID, service, provHex string) 
 		dep = stakeOf(b.Deposit)
 	}
 	amt := floorMul(dep, w.cfg.Slash)
+	if w.cfg.baseDenom() != "stake" {
+		// a slash takes the fraction of the deposit's amount of the base denomination; deposits are
+		// held in "stake", so after the base denomination has moved elsewhere that amount is zero
+		amt = 0
+	}
 	e.DepositPost[bk] = dep - amt
 	e.Delta[w.DepositAcc] -= amt
 	e.Supply -= amt
